@@ -97,6 +97,9 @@ def compare_spec(where, version, cls, slot, exp, got, out, file=None, line=None,
                 d = _set_dir(e, g, invert=True)
             else:
                 d = "other"
+        elif attr == "spec_version" and kind in ("IDProperty", "ReferenceProperty") and {e, g} == {"2.0", "2.1"}:
+            # identifier rules: 2.0 admits UUIDv4 only and the 2.0 types, 2.1 every RFC 4122 UUID and a superset of the types
+            d = "permissive" if g == "2.1" else "strict"
         else:
             d = "other"
         out.append(Diff(version, cls, slot, prefix + attr, e, g, d, file, line))
